@@ -84,6 +84,7 @@ let run () =
                             else let bs = repeat_pat (iarg 2) (iarg 1) 0 in
                               ((match advance_mut bs t1 with Ok t2 -> Some ("ok:" ^ string_of_n n, t2) | _ -> None), Some bs)
                           | _ -> (None, None))
+               | "ub" | "uc" -> (None, None)          (* always out of range / wrong length: the model panics *)
                | "amx" -> (match cmm !st with
                            | Ok (n, t1) -> let k = int_of_n n + 1 + iarg 1 in
                              (of_res (advance_mut (List.init k (fun _ -> n_of_int 0xEE)) t1), None)
@@ -130,6 +131,8 @@ let run () =
                     if got <> bs then report (if List.hd f = "wr" then "c12w-writer" else "c11-appended") (Printf.sprintf "op=%s appended %s, expected exactly %s" op (hex_of_ns got) (hex_of_ns bs))
                   | _ -> ())
                end;
+               if (List.hd f = "ub" || List.hd f = "uc") && not ipanic then
+                 report "c11-uninit-slice" (Printf.sprintf "op=%s: UninitSlice accepted an out-of-range index / a source of the wrong length (%s)" op obs);
                if List.hd f = "wr" then begin
                  if ipanic then report "c12w-writer" "Writer::write panicked"
                  else (match accepted with Some bs -> if obs <> string_of_int (List.length bs) then report "c12w-writer" (Printf.sprintf "write returned %s, min(remaining_mut, len) = %d" obs (List.length bs)) | None -> ())
